@@ -32,13 +32,23 @@ func doExpiration(c *kit.Ctx, x expCase) {
 	if x.PodF {
 		rules = append(rules, rule{"list", "Pod", "", -1, "err"})
 	}
+	d := decorFor(c)
+	if !x.PodF {
+		rules = d.rules(rules)
+	}
 	w := newWorld(rules...)
-	created := baseTime()
+	// creation time varies (always whole seconds, as the API stores it)
+	created := baseTime().Add(time.Duration(c.NextID()%4) * 12345 * time.Second)
 	nc := &v1.NodeClaim{
 		ObjectMeta: metav1.ObjectMeta{Name: "claim", CreationTimestamp: metav1.Time{Time: created}},
 		Spec:       v1.NodeClaimSpec{NodeClassRef: classRef(x.Managed), ExpireAfter: v1.NillableDuration{Duration: x.TTL}},
 		Status:     v1.NodeClaimStatus{ProviderID: "fake://claim", NodeName: "node-claim"},
 	}
+	d.claim(nc)
+	if x.Managed && d.Labels {
+		nc.Labels[v1.NodePoolLabelKey] = "pool"
+	}
+	d.pods(w, "node-claim")
 	switch x.State {
 	case "live":
 		w.add(nc)
